@@ -18,6 +18,11 @@
 (*   iofail   : d             creating the directory / opening the file of  *)
 (*              download d raised an OSError (the download gives up)        *)
 (*   finished : d             the transfer reached a final state            *)
+(*   aborting : d             the user called TransferManager.abort for d   *)
+(*              (recorded when the call is made: from here on d is not an   *)
+(*              active download, its task is being cancelled)               *)
+(*   abort_refused : d        that call raised: d goes on as before          *)
+(*   removed  : rel           a file below the download directory vanished  *)
 (* Anything created outside the download directory is recorded as          *)
 (* `created_outside` and has no action here: the trace is rejected.         *)
 (*                                                                         *)
@@ -31,9 +36,9 @@ EXTENDS Naming, Json, IOUtils
 
 Traces == JsonDeserialize(IOEnv.TRACE_FILE)
 
-VARIABLES tid, l, marks, excused, obs
+VARIABLES tid, l, marks, excused, obs, before
 
-tvars == <<vars, tid, l, marks, excused, obs>>
+tvars == <<vars, tid, l, marks, excused, obs, before>>
 
 T == Traces[tid]
 Rec == T[l]
@@ -55,9 +60,10 @@ TInit ==
   /\ marks = {}
   /\ excused = {}
   /\ obs = [d \in Downloads |-> [existed |-> FALSE, realInside |-> TRUE]]
+  /\ before = [d \in Downloads |-> "choose"]
 
 IsEv(e) == l <= Len(T) /\ Rec.ev = e
-Consume == l' = l + 1 /\ UNCHANGED tid
+Consume == l' = l + 1 /\ UNCHANGED <<tid, before>>
 
 Agrees(d, rel) ==
   \E san \in BOOLEAN : ~RefusesX(remote[d], san) /\ PredictX(chain, remote[d], san) = rel
@@ -139,23 +145,51 @@ TFinished ==
   /\ UNCHANGED <<files, dirs, chain, remote, chosen, fresh, lock>>
   /\ Consume /\ UNCHANGED <<marks, excused, obs>>
 
+\* the user aborts download d (Abort of the design spec, observed in two halves: the call, and
+\* the removal of the file / the ABORTED notification, which arrive as `removed` / `finished`)
+TAborting ==
+  /\ IsEv("aborting")
+  /\ Rec.d \in Downloads
+  /\ pc[Rec.d] \notin {"done", "aborted"}
+  /\ before' = [before EXCEPT ![Rec.d] = pc[Rec.d]]
+  /\ pc' = [pc EXCEPT ![Rec.d] = "aborted"]
+  /\ UNCHANGED <<files, dirs, chain, remote, chosen, fresh, lock>>
+  /\ l' = l + 1 /\ UNCHANGED <<tid, marks, excused, obs>>
+
+TAbortRefused ==
+  /\ IsEv("abort_refused")
+  /\ Rec.d \in Downloads
+  /\ pc[Rec.d] = "aborted"
+  /\ pc' = [pc EXCEPT ![Rec.d] = before[Rec.d]]
+  /\ UNCHANGED <<files, dirs, chain, remote, chosen, fresh, lock>>
+  /\ Consume /\ UNCHANGED <<marks, excused, obs>>
+
+\* a file vanished: it is the local file of a download (abort removes it)
+TRemoved ==
+  /\ IsEv("removed")
+  /\ \E d \in Downloads : HasChosen(d) /\ Created(d) = {Rec.rel}
+  /\ files' = files \ {Rec.rel}
+  /\ UNCHANGED <<dirs, chain, remote, pc, chosen, fresh, lock>>
+  /\ Consume /\ UNCHANGED <<marks, excused, obs>>
+
 Silent ==
   /\ l <= Len(T)
   /\ \E d \in Downloads :
        \/ Mkdir(d)
        \/ Start(d)
        \/ (pc[d] = "open" /\ (~CanOpen(d) \/ Created(d) \subseteq files) /\ Open(d))
-  /\ UNCHANGED <<tid, l, marks, excused, obs>>
+  /\ UNCHANGED <<tid, l, marks, excused, obs, before>>
 
 Done ==
   /\ l = Len(T) + 1
   /\ PrintT(<<"ACCEPT", tid, marks>>)
   /\ l' = l + 1
-  /\ UNCHANGED <<vars, tid, marks, excused, obs>>
+  /\ UNCHANGED <<vars, tid, marks, excused, obs, before>>
 
 Finished == l = Len(T) + 2 /\ UNCHANGED tvars
 
 TNext == TChosen \/ TChosenRace \/ TRefused \/ TCreated \/ TCreatedOther \/ TIoFail \/ TFinished
+         \/ TAborting \/ TAbortRefused \/ TRemoved
          \/ Silent \/ Done \/ Finished
 
 TSpec == TInit /\ [][TNext]_tvars
